@@ -100,6 +100,19 @@ var ops = []opGen{
 		p := g.Pick(g.WorkFiles(), "file")
 		return Step{Op: "write", Path: p, Data: []byte(g.E.Cur.Work.Files[p]), Note: "identical"}
 	}},
+	{"revert", func(g *G) bool { return len(revertible(g)) > 0 }, func(g *G) Step {
+		// the file goes back to bytes it held earlier (a blob with that id is usually stored already)
+		p := g.Pick(revertible(g), "revertPath")
+		olds := g.E.H.Contents[p]
+		cur := g.E.Cur.Work.Files[p]
+		var cands []string
+		for _, o := range olds {
+			if o != cur {
+				cands = append(cands, o)
+			}
+		}
+		return Step{Op: "write", Path: p, Data: []byte(g.Pick(cands, "olderContent")), Note: "revert"}
+	}},
 	{"touch", hasFiles, func(g *G) Step { return Step{Op: "touch", Path: g.Pick(g.WorkFiles(), "file")} }},
 	{"remove-file", hasFiles, func(g *G) Step { return Step{Op: "remove", Path: g.Pick(g.WorkFiles(), "file")} }},
 	{"recreate", func(g *G) bool { return len(deletedTracked(g)) > 0 }, func(g *G) Step {
@@ -107,6 +120,23 @@ var ops = []opGen{
 	}},
 	{"file2dir", func(g *G) bool { return len(trackedFilesOnDisk(g)) > 0 }, func(g *G) Step {
 		return Step{Op: "file2dir", Path: g.Pick(trackedFilesOnDisk(g), "trackedFile"), Args: []string{g.DirComponent()}, Data: g.SmallContent()}
+	}},
+	{"copydir", func(g *G) bool { return len(g.WorkDirs()) > 0 }, func(g *G) Step {
+		src := g.Pick(g.WorkDirs(), "srcDir")
+		for try := 0; try < 10; try++ {
+			dst := g.DirComponent()
+			if par := parentOf(src); par != "" && g.Bool("sameParent") {
+				dst = par + "/" + dst
+			}
+			if dst != src && !strings.HasPrefix(dst, src+"/") && !g.E.Cur.Work.Dirs[dst] && g.pathUsable(dst) && g.pathUsable(dst+"/x") {
+				return Step{Op: "copydir", Path: src, Args: []string{dst}}
+			}
+		}
+		return Step{Op: "write", Path: g.NewPath(), Data: g.contentFor()}
+	}},
+	{"recreate-unstaged", func(g *G) bool { return len(unstagedGone(g)) > 0 }, func(g *G) Step {
+		// a path that was staged or committed before, is no longer staged and no longer on disk, comes back as a new file
+		return Step{Op: "write", Path: g.Pick(unstagedGone(g), "unstagedGone"), Data: g.contentFor()}
 	}},
 	{"rmdir", func(g *G) bool { return len(g.WorkDirs()) > 0 }, func(g *G) Step {
 		return Step{Op: "rmdir", Path: g.Pick(g.WorkDirs(), "dir")}
@@ -391,6 +421,39 @@ func prelude(g *G) []Step {
 		st = append(st, goit("config", "--global", "user.name", name), goit("config", "user.email", email))
 	}
 	return st
+}
+
+// unstagedGone lists paths that were staged at some time, are not staged now and do not exist on disk.
+func unstagedGone(g *G) []string {
+	var xs []string
+	for p := range g.E.H.EverStaged {
+		if _, staged := g.E.Cur.IdxMap[p]; staged {
+			continue
+		}
+		if hasFile(g.E.Cur, p) || g.E.Cur.Work.Dirs[p] || underFile(g.E.Cur, p) {
+			continue
+		}
+		xs = append(xs, p)
+	}
+	sort.Strings(xs)
+	return xs
+}
+
+// revertible lists files on disk that have held other bytes before.
+func revertible(g *G) []string {
+	var xs []string
+	for _, p := range g.WorkFiles() {
+		n := 0
+		for _, o := range g.E.H.Contents[p] {
+			if o != g.E.Cur.Work.Files[p] {
+				n++
+			}
+		}
+		if n > 0 {
+			xs = append(xs, p)
+		}
+	}
+	return xs
 }
 
 func trackedFilesOnDisk(g *G) []string {
